@@ -80,7 +80,7 @@ def ops(ctx):
     num = ctx.num
     T = ctx.D.term
     sk = automaton(P["shape"])
-    ws = automaton_weights(ctx, sk, always=P.get("always", ()))
+    ws = automaton_weights(ctx, sk, always=P.get("always", ()), const=P.get("const"))
     om = oracle_machine(ctx, sk, ws)
     alphabet = sorted({a for (_, a, _) in sk.arcs if a != EPS})
     L = P.get("L", _longest(sk))
@@ -124,14 +124,19 @@ def jobs(tier, seed):
     plan = [("A-DAG2", ["push", "trim", "trim_vals", "determinize"], [0, 1]),
             ("A-DAG", ["push", "trim", "trim_vals"], [0, 1, 2]),
             ("A-DEAD", ["push", "trim", "trim_vals", "determinize", "min_det"], [0]),
-            ("A-D3", ["determinize", "min_det"], [0])]
+            ("A-D3", ["determinize", "min_det"], [0]),
+            ("A-D4", ["determinize"], [0, 1])]
     if not quick:
-        plan += [("A-DAG", ["determinize"], [0, 1, 2, 3]), ("A-DAG2", ["min_det"], [0, 1, 2]), ("A-S1", ["push", "trim", "trim_vals"], []), ("A-EPS2", ["push", "trim", "trim_vals"], [0])]
+        plan += [("A-D4", ["min_det", "push"], [0, 1]), ("A-DAG", ["determinize"], [0, 1, 2, 3]), ("A-DAG2", ["min_det"], [0, 1, 2]), ("A-S1", ["push", "trim", "trim_vals"], []), ("A-EPS2", ["push", "trim", "trim_vals"], [0])]
     for sh, ops_, bits in plan:
         sk = automaton(sh)
         alw = list(range(len(sk.arcs), sk.K))  # initial/final weights always present; arc weights free
         for op in ops_:
-            js = split_job(dict(case="ops", params=dict(shape=sh, ops=[op], always=alw), timeout=900), bits)
+            prm = dict(shape=sh, ops=[op], always=alw)
+            if sh == "A-D4":
+                prm["const"] = {"4": 1, "5": 1}  # the two continuation arcs carry weight one: four symbolic residual weights
+                prm["L"] = 3  # longest path has two symbols
+            js = split_job(dict(case="ops", params=prm, timeout=900), bits)
             if quick and sh == "A-DAG2" and op == "determinize":
                 # the sub-shape with all six arcs present blows the normaliser up (thorough tier, counted inconclusive there)
                 for j in js:
